@@ -153,6 +153,8 @@ partial def parsePipe (env : Env) : Sexp → Option Obsv
   | .list [.atom "contains", v, p] => do some (stdOp (kContains (← parseData v)) (← parsePipe env p))
   | .list [.atom "default_if_empty", v, p] => do some (stdOp (kDefaultIfEmpty (← parseData v)) (← parsePipe env p))
   | .list [.atom "ignore_elements", p] => (parsePipe env p).map (stdOp kIgnoreElements)
+  | .list [.atom "timestamp", p] => (parsePipe env p).map (stdOp kId)
+  | .list [.atom "time_interval", p] => (parsePipe env p).map (stdOp kTimeInterval)
   | .list [.atom "start_with", .list (.atom "l" :: vs), p] => do
       some (oStartWith (← vs.mapM parseData) (← parsePipe env p))
   | .list [.atom "buffer_with_count", n, p] => do some (stdOp (kBuffer (← n.asNat)) (← parsePipe env p))
